@@ -82,4 +82,26 @@ impl<'a> EnumCursor<'a> {
         ensures r.0 == old(self).pos(), *r.1 == old(self).all()[old(self).pos()], final(self).pos() == old(self).pos() + 1, final(self).all() == old(self).all() { unimplemented!() }
 }
 
+// ---- the template-instantiation arm
+#[verifier::external_body] pub struct TemplateInstantiation { _p: core::marker::PhantomData<()> }
+impl TemplateInstantiation {
+    pub uninterp spec fn s_args(&self) -> Seq<TypeId>;
+    pub uninterp spec fn s_opaque(&self, ctx: &BindgenContext, item: &Item) -> bool;
+    #[verifier::external_body] pub fn template_arguments(&self) -> (r: &[TypeId]) ensures r@ == self.s_args() { unimplemented!() }
+    #[verifier::external_body] pub fn is_opaque(&self, ctx: &BindgenContext, item: &Item) -> (r: bool) ensures r == self.s_opaque(ctx, item) { unimplemented!() }
+}
+// format!("{name}: opaque") with no arguments
+#[verifier::external_body] pub fn piece_opaque(name: &str) -> (r: Piece) ensures !prints_member(r) { unimplemented!() }
+// `for arg in xs` over a slice of type ids (rule R13)
+#[verifier::external_body] pub struct IdCursor<'a> { _p: core::marker::PhantomData<&'a ()> }
+impl<'a> IdCursor<'a> {
+    pub uninterp spec fn all(&self) -> Seq<TypeId>;
+    pub uninterp spec fn pos(&self) -> int;
+    #[verifier::external_body] pub fn new(v: &'a [TypeId]) -> (r: IdCursor<'a>) ensures r.all() == v@, r.pos() == 0 { unimplemented!() }
+    #[verifier::external_body] pub fn has_next(&self) -> (r: bool) ensures r == (self.pos() < self.all().len()), 0 <= self.pos() <= self.all().len() { unimplemented!() }
+    #[verifier::external_body] pub fn next_item(&mut self) -> (r: &'a TypeId)
+        requires old(self).pos() < old(self).all().len(),
+        ensures *r == old(self).all()[old(self).pos()], final(self).pos() == old(self).pos() + 1, final(self).all() == old(self).all() { unimplemented!() }
+}
+
 } // verus!
